@@ -113,6 +113,92 @@ theorem C04_binding_count (o : Opts) (env : Env) (c : Bool) (attrs : List Node) 
   | nil => rfl
   | cons a rest ih => cases hb : bindingNameOf c a <;> simp [hb, ih]
 
+/-- the complete binding (name, argument, modifiers, value) of a runtime directive attribute, as a function of the ATTRIBUTE ALONE
+    (no visitor state, no neighbouring attribute, no option): `none` for everything that is not a runtime directive other than
+    v-model -/
+def ownBindingOf (a : Node) : Option (String × Option Node × Option Node × Node) :=
+  match a with
+  | .mk .jsxAttr _ [nameN, v] =>
+    if isDirectiveAttrName (attrNameOf nameN) then
+      let p := dirNameParts (attrNameOf nameN)
+      if p.1 == "html" || p.1 == "text" || p.1 == "slots" || p.1 == "model" then none
+      else
+        match normalFinish p.1 (normalTuple v (p.2.1.map nStr) p.2.2) with
+        | .normal n arg mods x => some (n, arg, mods, x)
+        | _ => none
+    else none
+  | _ => none
+
+def isVModelAttr (a : Node) : Bool :=
+  match a with
+  | .mk .jsxAttr _ [nameN, _] => isDirectiveAttrName (attrNameOf nameN) && (dirNameParts (attrNameOf nameN)).1 == "model"
+  | _ => false
+
+theorem attrStep_own_binding (o : Opts) (c : Bool) (a : Node) (l : Option Node) (acc : AttrAcc) (st : St)
+    (hm : isVModelAttr a = false) :
+    (attrStep o c a l acc st).1.directives = acc.directives ++ (ownBindingOf a).toList := by
+  by_cases hA : ∃ as nameN valueN, a = .mk .jsxAttr as [nameN, valueN]
+  · obtain ⟨as, nameN, valueN, rfl⟩ := hA
+    by_cases hd : isDirectiveAttrName (attrNameOf nameN) = true
+    · have hm' : ((dirNameParts (attrNameOf nameN)).1 == "model") = false := by
+        simpa [isVModelAttr, hd] using hm
+      rw [attrStep_directive _ _ _ _ _ _ _ _ hd, parseDirective_eq]
+      simp only [ownBindingOf, hd, if_true, hm', Bool.or_false]
+      by_cases h1 : ((dirNameParts (attrNameOf nameN)).1 == "html") = true
+      · simp [h1]
+      by_cases h2 : ((dirNameParts (attrNameOf nameN)).1 == "text") = true
+      · simp [h1, h2]
+      by_cases h4 : ((dirNameParts (attrNameOf nameN)).1 == "slots") = true
+      · simp [h1, h2, h4, parseVSlots]
+      · simp only [h1, h2, h4, Bool.false_eq_true, if_false, Bool.or_self]
+        unfold normalFinish
+        simp
+    · have hd' : isDirectiveAttrName (attrNameOf nameN) = false := by simpa using hd
+      have hflags : ∀ (n : String) (vN : Node) (t : Bool) (acc : AttrAcc),
+          (plainAttrFlags c n vN t acc).directives = acc.directives := by
+        intro n vN t acc
+        unfold plainAttrFlags coverStep hydrationStep
+        repeat' split
+        all_goals rfl
+      simp only [attrStep, ownBindingOf, hd', Bool.false_eq_true, if_false, Option.toList_none, List.append_nil]
+      split <;> split <;> (try split) <;> simp [hflags]
+  · have hb : ownBindingOf a = none := by
+      unfold ownBindingOf
+      split
+      · exact absurd ⟨_, _, _, rfl⟩ hA
+      · rfl
+    rw [hb]
+    unfold attrStep
+    split
+    · exact absurd ⟨_, _, _, rfl⟩ hA
+    · simp only [Option.toList_none, List.append_nil]
+      repeat' split
+      all_goals rfl
+    · simp
+
+/-- **C04, complete bindings for whole attribute lists**: on a list without v-model, the vnode's directive bindings - name,
+    argument, modifiers AND value - are the concatenation, in source order, of what each directive attribute denotes BY ITSELF:
+    no binding depends on the visitor state, on an option, on the host kind or on a neighbouring attribute. -/
+theorem C04_bindings_depend_on_own_attribute_only (o : Opts) (env : Env) (c : Bool) :
+    ∀ (attrs : List Node) (acc : AttrAcc) (st : St), (∀ a ∈ attrs, isVModelAttr a = false) →
+      (trAttrs o env c attrs acc st).1.directives = acc.directives ++ attrs.filterMap ownBindingOf
+  | [], acc, st, _ => by unfold trAttrs; simp
+  | a :: rest, acc, st, h => by
+    rw [trAttrs_cons, C04_bindings_depend_on_own_attribute_only o env c rest _ _ (fun x hx => h x (List.mem_cons_of_mem _ hx)),
+      attrStep_own_binding _ _ _ _ _ _ (h a List.mem_cons_self)]
+    cases hb : ownBindingOf a <;> simp [hb]
+
+
+/-- the whole element (`transformAttrs` starts from the empty accumulator): what `withDirectives` receives -/
+theorem C04_element_complete_bindings (o : Opts) (env : Env) (c : Bool) (attrs : List Node) (st : St)
+    (h : ∀ a ∈ attrs, isVModelAttr a = false) :
+    (transformAttrs o env attrs c st).1.directives = attrs.filterMap ownBindingOf := by
+  cases attrs with
+  | nil => simp [transformAttrs]
+  | cons a rest =>
+    simp only [transformAttrs]
+    simpa using C04_bindings_depend_on_own_attribute_only o env c (a :: rest) {} st h
+
 -- non-vacuity / concrete instances (tests, labelled as tests): five attributes, three bindings on an element, two on a component
 private def tA (n : String) : Node := .mk .jsxAttr [] [.mk .ident [n] [], .mk .none [] []]
 #guard [tA "v-show", tA "id", tA "vMyDir_a", tA "v-model", tA "v-html", tA "v-slots"].filterMap (bindingNameOf false)
@@ -121,5 +207,8 @@ private def tA (n : String) : Node := .mk .jsxAttr [] [.mk .ident [n] [], .mk .n
          == ["show", "myDir"]
 #guard (transformAttrs {} default [tA "v-show", tA "id", tA "vMyDir_a", tA "v-model", tA "v-html"] false default).1.directives.map (·.1)
          == ["show", "myDir", "model"]
+
+#guard ([tA "v-show", tA "id", tA "vMyDir_a", tA "v-html"].filterMap ownBindingOf).map (·.1) == ["show", "myDir"]
+#guard [tA "v-show", tA "id", tA "vMyDir_a", tA "v-html"].all (fun a => !isVModelAttr a)
 
 end VueJsx
